@@ -1,0 +1,58 @@
+//! verif-hooks: process-wide commit counter and crash injection for the /verif harness (C08, C10).
+//!
+//! Every `RocksDBTransaction::commit`, `RocksDB::write` and `RocksDB::write_sync` creates a
+//! `CommitGuard` first. The n-th guard (1-based, counted over the whole process) aborts the process
+//! * before the write when the environment has `VERIF_CRASH_AT=n` or `VERIF_CRASH_AT=n:before`,
+//! * right after the write returned when it has `VERIF_CRASH_AT=n:after`.
+//! Without the variable nothing but the counter changes.
+use std::sync::OnceLock;
+use std::sync::atomic::{AtomicU64, Ordering};
+
+static COUNT: AtomicU64 = AtomicU64::new(0);
+static PLAN: OnceLock<Option<(u64, bool)>> = OnceLock::new();
+
+fn plan() -> Option<(u64, bool)> {
+    *PLAN.get_or_init(|| {
+        let v = std::env::var("VERIF_CRASH_AT").ok()?;
+        let (n, after) = match v.split_once(':') {
+            Some((n, "after")) => (n, true),
+            Some((n, _)) => (n, false),
+            None => (v.as_str(), false),
+        };
+        n.parse::<u64>().ok().map(|n| (n, after))
+    })
+}
+
+/// Number of commits / batch writes started so far in this process.
+pub fn count() -> u64 {
+    COUNT.load(Ordering::SeqCst)
+}
+
+/// See the module documentation.
+pub struct CommitGuard(u64);
+
+impl CommitGuard {
+    /// Counts one commit; aborts here for `n` / `n:before`.
+    #[allow(clippy::new_without_default)]
+    pub fn new() -> CommitGuard {
+        let i = COUNT.fetch_add(1, Ordering::SeqCst) + 1;
+        if let Some((n, false)) = plan() {
+            if n == i {
+                eprintln!("VERIF_CRASH_AT: abort before commit {i}");
+                std::process::abort();
+            }
+        }
+        CommitGuard(i)
+    }
+}
+
+impl Drop for CommitGuard {
+    fn drop(&mut self) {
+        if let Some((n, true)) = plan() {
+            if n == self.0 {
+                eprintln!("VERIF_CRASH_AT: abort after commit {n}");
+                std::process::abort();
+            }
+        }
+    }
+}
